@@ -8,10 +8,16 @@ from props.common import load_impl, exc_name
 import worker
 
 RULE = ("random small datasets x methods (neighbor K=1 default/grouped provenance, neighbor K=2 through the ADD path, bruteforce, montecarlo) x utilities "
-        "(accuracy with 1-NN / logistic regression / estimators that draw from numpy's global generator (random-splitter tree bare and inside a Pipeline, small forest, a custom estimator without random_state; all random_state=None), JointUtility): the same case is scored (a) twice in-process on fresh objects, (b) again after re-seeding and "
-        "advancing numpy's and random's global generators, (c) in fresh interpreter processes with PYTHONHASHSEED = 0, 1 and a random value; all score vectors must be "
+        "(accuracy with 1-NN / logistic regression / GaussianNB (warning-sensitive: single-row coalitions trip numpy floating-point warnings, which the library scores as "
+        "failed evaluations) / estimators that draw from numpy's global generator (random-splitter tree bare and inside a Pipeline, small forest, a custom estimator "
+        "without random_state; all random_state=None), JointUtility, ROC-AUC for neighbor K=1): the same case is scored (a) in-process on fresh objects, (b) again on fresh "
+        "objects after re-seeding and advancing numpy's and random's global generators AND after a random history of 0-3 OTHER scorings in the same process (neighbor with "
+        "ROC-AUC, neighbor with accuracy, bruteforce/montecarlo with another model on other data), (c) in fresh interpreter processes with PYTHONHASHSEED = 0 (nothing ran "
+        "before), 1 (another random history of other scorings ran before in that process) and, thorough, a random value; all score vectors must be "
         "bit-identical (compared as bytes) and montecarlo must draw identical permutations; (d) neighbor and bruteforce must not change when the seed changes; "
-        "(e) montecarlo with different seeds but identical (injected) permutations must return identical scores. Non-trivial = the score vector is not constant; "
+        "(e) montecarlo with different seeds but identical (injected) permutations must return identical scores; (f) around EVERY fit and score call (targets and "
+        "histories, in-process and in the subprocesses) np.geterr(), np.geterrcall(), the content of warnings.filters and os.environ are snapshotted and must be unchanged "
+        "(numpy's global generator state is not part of the snapshot: the library seeds it on purpose). Non-trivial = the score vector is not constant; "
         "distinct = distinct (dataset, method, utility, seed).")
 
 
@@ -23,6 +29,43 @@ def sub(ctx, case, hashseed):
         if line.startswith("RESULT "):
             return json.loads(line[7:])
     return {"error": (r.stderr or r.stdout)[-400:]}
+
+
+def rand_history(rng, p_empty=0.15):
+    """0-3 other scorings (small, valid, cheap) that run in the same process before the target case"""
+    if rng.random() < p_empty:
+        return []
+    out = []
+    for _ in range(rng.randint(1, 3)):
+        kind = rng.choice(["neighbor-rocauc", "neighbor-rocauc", "neighbor-accuracy", "bruteforce", "montecarlo"])
+        n = rng.randint(3, 5)
+        nprng = np.random.RandomState(rng.randrange(2 ** 31))
+        c = rng.randint(2, 3)
+        y = [i % c for i in range(n)]
+        rng.shuffle(y)
+        m = rng.randint(2, 4)
+        h = dict(X=np.round(nprng.randn(n, 2), 3).tolist(), y=y, Xv=np.round(nprng.randn(m, 2), 3).tolist(), yv=[rng.randrange(c) for _ in range(m)], joint=False, kw={})
+        if kind.startswith("neighbor"):
+            h.update(method="neighbor", model="knn", utility=kind.split("-")[1])
+        else:
+            h.update(method=kind, model=rng.choice(["knn", "logreg", "gnb", "rtree"]), utility="accuracy",
+                     kw=({"seed": rng.randrange(100)} if kind == "bruteforce" else {"mc_iterations": 2, "mc_truncation_steps": 0, "seed": rng.randrange(100)}))
+        out.append(h)
+    return out
+
+
+def state_changes(ctx, changes, where):
+    """report (f): a fit/score call changed process-global state; the replay is that call"""
+    seen = ctx.extra.setdefault("_state_change_signatures", [])
+    for ch in changes:
+        sig = [where.split()[0], ch["call"], ch["case"]["method"], ch["case"].get("utility"), ch["case"]["model"], sorted(ch["changed"])]
+        ctx.dist["global_state_changed"] += 1
+        if sig in seen:
+            continue          # one report per (call, method, utility, model, what changed) and process kind in this worker; all are counted
+        seen.append(sig)
+        ctx.mismatch("%s() changed process-global state as a side effect (%s) [%s]" % (ch["call"], ", ".join(sorted(ch["changed"])), where), ch["case"], impl=ch["changed"],
+                     spec="np.geterr(), np.geterrcall(), warnings.filters and os.environ are the same before and after the call")
+    del changes[:]
 
 
 def run(ctx):
@@ -46,8 +89,10 @@ def run(ctx):
         m = rng.randint(2 if method == "montecarlo" else 1, 4) if not mc_trunc else rng.randint(6, 10)      # mean_score subsamples half of the validation set: needs >= 2 points
         Xv = np.round(nprng.randn(m, 2), 3).tolist()
         yv = [rng.randrange(c) for _ in range(m)]
-        case = dict(X=X, y=y, Xv=Xv, yv=yv, model=rng.choice(["knn", "logreg", "rtree", "pipe_rtree", "custom_global", "rforest"]) if method in ("bruteforce", "montecarlo") else "knn",
-                    joint=(rng.random() < 0.3), method=("neighbor" if method.startswith("neighbor") else method), kw={})
+        case = dict(X=X, y=y, Xv=Xv, yv=yv, model=rng.choice(["knn", "logreg", "rtree", "pipe_rtree", "custom_global", "rforest", "gnb", "gnb", "gnb"]) if method in ("bruteforce", "montecarlo") else "knn",
+                    joint=(rng.random() < 0.3), method=("neighbor" if method.startswith("neighbor") else method), kw={}, utility="accuracy")
+        if method == "neighbor" and not case["joint"] and rng.random() < 0.4:
+            case["utility"] = "rocauc"
         seed = rng.randrange(10 ** 6) if it % 3 else 0          # 0 is a legitimate seed
         if method == "neighbor" and rng.random() < 0.5:
             nu = rng.randint(2, n)
@@ -71,26 +116,37 @@ def run(ctx):
             case["kw"] = {"mc_iterations": rng.randint(2, 6), "mc_truncation_steps": rng.choice([0, 1, 2]), "mc_tolerance": rng.choice([0.1, 0.5]), "seed": seed}
         if method == "bruteforce":
             case["kw"] = {"seed": seed}
+        hist = rand_history(rng)
+        ran_before = list(worker.LOG)          # what this worker process scored before the first run of this case
         try:
             a, pa = worker.build_and_score(I, dict(case, scramble=None))
-            b, pb = worker.build_and_score(I, dict(case, scramble=rng.randrange(1, 10 ** 6)))
+            b, pb = worker.build_and_score(I, dict(case, scramble=rng.randrange(1, 10 ** 6), history=hist))
         except Exception as e:  # noqa
-            ctx.mismatch("scoring raised", case, impl=exc_name(e) + repr(e))
+            ctx.mismatch("scoring raised", dict(case, history=hist), impl=exc_name(e) + repr(e))
             continue
+        finally:
+            state_changes(ctx, worker.STATE_CHANGES, "in-process")
         vec = np.frombuffer(bytes.fromhex(a), dtype=float)
-        ctx.case(case, nontrivial=len(set(np.round(vec, 9).tolist())) > 1, sample=dict(case, scores=vec.tolist()), method=method, model=case["model"], joint=case["joint"])
+        ctx.case(case, nontrivial=len(set(np.round(vec[np.isfinite(vec)], 9).tolist())) > 1, sample=dict(case, scores=vec.tolist()), method=method, model=case["model"], joint=case["joint"], utility=case["utility"])
+        ctx.dist["history_len=%d" % len(hist)] += 1
         if a != b or pa != pb:
-            ctx.mismatch("scores/permutations changed after the global random generators were re-seeded", case, impl=dict(first=vec.tolist(), second=np.frombuffer(bytes.fromhex(b), dtype=float).tolist(), perms=[pa, pb]))
+            ctx.mismatch("scores/permutations of a fresh object changed after the global random generators were re-seeded and other scorings (history) ran in the same process",
+                         dict(case, history=hist), impl=dict(first=vec.tolist(), second=np.frombuffer(bytes.fromhex(b), dtype=float).tolist(), perms=[pa, pb]))
             continue
-        if it % 2 == 0 or not q:
+        if it % 2 == 0 or not q or case["model"] == "gnb":
             for hs in ([0, 1] if q else [0, 1, rng.randrange(2, 10 ** 6)]):
-                r = sub(ctx, dict(case, scramble=rng.randrange(1, 10 ** 6)), hs)
+                # PYTHONHASHSEED=0: nothing ran before in that process; otherwise another history of other scorings runs there first
+                hist2 = [] if hs == 0 else rand_history(rng, p_empty=0.0 if hs == 1 else 0.5)
+                r = sub(ctx, dict(case, scramble=rng.randrange(1, 10 ** 6), history=hist2), hs)
                 if "error" in r:
-                    ctx.mismatch("subprocess run failed", case, impl=r["error"])
+                    ctx.mismatch("subprocess run failed", dict(case, history=hist2), impl=r["error"])
                     break
+                state_changes(ctx, r.get("state_changes", []), "subprocess PYTHONHASHSEED=%s" % hs)
                 if r["hex"] != a or r["perms"] != pa:
-                    ctx.mismatch("scores differ in another interpreter process (PYTHONHASHSEED=%s)" % hs, case,
-                                 impl=dict(here=vec.tolist(), there=np.frombuffer(bytes.fromhex(r["hex"]), dtype=float).tolist()))
+                    ctx.mismatch("scores differ in another interpreter process (PYTHONHASHSEED=%s, after %d other scorings there; here after the scorings of this worker process)" % (hs, len(hist2)),
+                                 dict(case, history=hist2),
+                                 impl=dict(here=vec.tolist(), there=np.frombuffer(bytes.fromhex(r["hex"]), dtype=float).tolist(), scored_here_before=ran_before,
+                                           scored_there_before=r.get("log", [])[:-1]))
                     break
         # seed independence
         try:
@@ -110,10 +166,12 @@ def run(ctx):
                 ctx.dist["mc_seed_changes_perms=%s" % (p3 != pa)] += 1
         except Exception as e:  # noqa
             ctx.mismatch("scoring raised", case, impl=exc_name(e) + repr(e))
+        state_changes(ctx, worker.STATE_CHANGES, "in-process")
         if ctx.elapsed() > (600 if q else 2400):
             break
     return ctx.finish("other", "Partial by nature. The model of each method is a pure function of (data, parameters, list of permutations) - there is no other input in "
                       "its signature (C04_estimator/C04_uniform take the permutations as an argument; the kernel, bruteforce and ADD models take none), which is all a "
                       "theorem can say. Hidden inputs of the implementation (global RNG state, hash randomisation, process identity) cannot be exhibited by a model and are "
-                      "decided here by perturbation runs: re-seeded global generators, fresh interpreter processes with different PYTHONHASHSEED, seed changes, injected "
-                      "permutations; everything is compared byte for byte.", RULE)
+                      "decided here by perturbation runs: re-seeded global generators, other scorings run before in the same process, fresh interpreter processes with "
+                      "different PYTHONHASHSEED (with and without other scorings before), seed changes, injected permutations; everything is compared byte for byte; "
+                      "the process-global floating-point error mode, warning filters and environment are snapshotted around every call.", RULE)
